@@ -165,6 +165,8 @@ pub struct Script {
     pub handler_err: bool,
     pub bidi: BidiMode,
     pub disable_compression: bool,
+    /// the scripted message sources (response and request) report an exact size_hint
+    pub exact_hint: bool,
 }
 
 #[derive(Default, Debug, Clone)]
@@ -515,6 +517,9 @@ pub fn fmt_view(v: &ClientView) -> String {
 }
 
 pub fn new_server(script: Script, ch: &Chooser, pending: bool) -> (EchoServer<ScriptedEcho>, Arc<Mutex<HandlerLog>>) {
+    if script.exact_hint {
+        ch.flag(crate::env::EXACT_SIZE_HINT);
+    }
     let log = Arc::new(Mutex::new(HandlerLog::default()));
     let h = ScriptedEcho { script, log: log.clone(), ch: ch.clone(), pending };
     (EchoServer::new(h), log)
